@@ -152,6 +152,11 @@ def _chain(it, root):
     return out
 
 
+def _multi_line(P, u, fn):
+    from .lib_c18h import multi_line_directive
+    return multi_line_directive(P, u, fn)
+
+
 def r186_line_marker(P, u, rep):
     fn = 'read_line_marker'
     W = '%s:%d' % (PP, u.fn(fn).line)
@@ -171,7 +176,17 @@ def r186_line_marker(P, u, rep):
     def cut_convert(it, ctx, call, args):
         ctx.emit('call', 'convert_pp_tokens', args, call.line, None)
         return None
-    it = Interp(P, u, {'cut': {'preprocess': cut_preprocess, 'preprocess2': cut_preprocess, 'convert_pp_tokens': cut_convert, 'copy_line': cut_copy_line}, 'track_stores': True})
+    import time as _time
+    deadline = _time.time() + 12
+
+    class _Budget(Interp):
+        # a scan over unknown bytes written with pointer comparisons (`for (r = q; r < e; r++)`) is followed as a concrete loop over ever larger terms:
+        # give up (undecided) instead of spinning; the concrete judgement of the end line (lib_c18h) does not depend on this exploration
+        def cmp(self, op, a, b):
+            if _time.time() > deadline:
+                raise AnalysisBroken('exploration of %s exceeds its time budget (a scan over unknown bytes that is not bounded by a byte test)' % fn)
+            return Interp.cmp(self, op, a, b)
+    it = _Budget(P, u, {'cut': {'preprocess': cut_preprocess, 'preprocess2': cut_preprocess, 'convert_pp_tokens': cut_convert, 'copy_line': cut_copy_line}, 'track_stores': True})
     def mk(ctx):
         return [Sym('rest', 'Token **'), Obj('Token', lazy=True, label='start')]
     n = 0
@@ -222,7 +237,13 @@ def r186_line_marker(P, u, rep):
         on_dir = [t for t in toks if t.split('.', 1)[0] in ('start', 'linetoks', 'arg')]
         key = base + ':counted-from-the-line-the-directive-ends-on'
         if len(set(r[0] for r in recs)) > 1:
-            rep.ob('R18.6', key + '/scans-behind-the-last-token', True, '', where=W)       # that the scan counts exactly the new-lines of the comments is not decided
+            rep.ob('R18.6', key + '/scans-behind-the-last-token', True, '', where=W)       # that the scan counts exactly the new-lines of the comments is decided on concrete tails by lib_c18h.r186_directive_end
+        elif on_dir and _multi_line(P, u, fn) is True:
+            # the symbolic exploration (one generic iteration per loop) saw the same constant on every path, e.g. because the new-lines are counted by a state
+            # machine that needs several iterations; the concrete run on a directive with a three-line comment shows that the end line is used
+            rep.ob('R18.6', key + '/scans-behind-the-last-token', True, '', where=W)
+        elif on_dir and _multi_line(P, u, fn) is None:
+            rep.undecided('R18.6', key, 'the delta is N minus the line of a token of the directive on every explored path, and the concrete run on a directive with a three-line comment is not conclusive', where=W)
         elif on_dir:
             rep.ob('R18.6', key + '/line-of-a-token-of-the-directive', False,
                    '#line computes its delta from %s.line_no on every path, the physical line on which a token of the directive starts: a directive that extends over several physical lines '
